@@ -12,6 +12,13 @@ Open Scope Z_scope.
 Theorem auth_sites_as_modelled : extracted_sites = expected_sites.
 Proof. vm_compute. reflexivity. Qed.
 
+(* argument provenance: the certificate object handed to DelegatedCredential.verify is the
+   end-entity entry certificate.certificate_list[0] and nothing else ever rebinds that variable
+   (the site table lists every binding of every local name used in a verification call) *)
+Theorem dc_verify_receives_end_entity_entry :
+  existsb (row_eqb dc_verify_row) extracted_sites = true.
+Proof. vm_compute. reflexivity. Qed.
+
 (* (1)(9) client <= TLS 1.2: a server chain is recorded only after a non-empty chain, the
    ServerKeyExchange signature by the end-entity key over client_random||server_random||params
    (for signed key exchanges; TLS 1.2: with a scheme from the list the client checks), the
@@ -42,15 +49,28 @@ Theorem server_chain_recorded_only_if_proved_tls13 : forall O r s c,
      (exists d, cm_dc cm = [d] /\ s_dc s = true /\ dc_cv_alg d = sch0 /\ dc_proved O r cm d ctx sg)).
 Proof. exact client13_recorded. Qed.
 
+(* session.delegated_credential is set only if BOTH signatures verified; the delegation signature
+   is by the key inside the END-ENTITY certificate of the chain that is recorded (entry 0 of the
+   certificate_list; the recorded chain is e :: rest), over that certificate's bytes; entries 1..
+   of the chain play no role *)
 Theorem dc_recorded_only_if_both_signatures : forall O r s,
   client13 O r = Ok s -> s_dc s = true ->
-  exists cm d sg ctx,
-    r_cert r = Some cm /\ cm_dc cm = [d] /\ r_cv r = Some (Some (dc_cv_alg d), sg) /\
+  exists cm e rest d sg ctx,
+    r_cert r = Some cm /\ cm_entries cm = e :: rest /\
+    s_server_chain s = Some (e_id e :: map e_id rest) /\
+    e_dc e = [d] /\ r_cv r = Some (Some (dc_cv_alg d), sg) /\
     vb13 O (dc_cv_alg d) (r_prf r) tag_server (r_tr_cv r) = Ok ctx /\
     sch_in (dc_cv_alg d) (r_dc_offered r) = true /\ sch_in (dc_alg d) (r_offered r) = true /\
-    sig_ok O (cm_key cm) (Some (dc_alg d)) (dc_tbs (cm_cert cm) (dc_cred d) (dc_alg d)) (dc_sig d) = true /\
+    sig_ok O (e_key e) (Some (dc_alg d)) (dc_tbs (e_cert e) (dc_cred d) (dc_alg d)) (dc_sig d) = true /\
     sig_ok O (dc_key d) (Some (dc_cv_alg d)) ctx sg = true.
-Proof. exact client13_dc. Qed.
+Proof. exact client13_dc_ee. Qed.
+
+(* every signature check of a recorded chain uses the key of entry 0 of that chain *)
+Theorem recorded_chain_proved_by_its_end_entity_key : forall cm,
+  cm_chain cm <> [] ->
+  exists e rest, cm_entries cm = e :: rest /\ cm_chain cm = e_id e :: map e_id rest /\
+                 cm_key cm = e_key e /\ cm_cert cm = e_cert e /\ cm_dc cm = e_dc e.
+Proof. exact cm_ee_of_chain. Qed.
 
 (* (2) server <= TLS 1.2 *)
 Theorem client_chain_recorded_only_if_proved_tls12 : forall O r s c,
